@@ -408,6 +408,21 @@ void StatementBuilder::decl_func_end()
         handle_error(TypeException{"$Return_statement_expected"});
     }
 
+    /* What the function reads must be known as soon as it can be called: the builder follows the reads of array
+     * sizes and instantiation arguments through calls when it marks restricted template parameters, long before
+     * the type checker computes the same set again (TypeChecker::visitFunction).
+     */
+    {
+        CollectDependenciesVisitor visitor(currentFun->depends);
+        currentFun->body->accept(&visitor);
+        for (const auto& var : currentFun->variables)
+            currentFun->depends.erase(var.uid);
+        const size_t parameters = currentFun->uid.get_type().size() - 1;
+        const frame_t& frame = currentFun->body->get_frame();
+        for (size_t i = 0; i < parameters && i < frame.get_size(); i++)
+            currentFun->depends.erase(frame[i]);
+    }
+
     /* Restore global frame.
      */
     popFrame();
